@@ -199,9 +199,11 @@ int io::stream::dispatch::process(const struct message *msg) const
 			return BadValue;
 		}
 		if ((ans = srm._wait.handler(rid))) {
-			int ret = ans->cmd(ans->arg, &tmp);
+			// release first: the handler may register new requests (and move the array)
+			int (*rcmd)(void *, void *) = ans->cmd;
+			void *rarg = ans->arg;
 			ans->cmd = 0;
-			return ret;
+			return rcmd(rarg, &tmp);
 		}
 		error(_func, "%s (id = %08" PRIx64 ")", MPT_tr("unknown reply id"), rid);
 		return BadValue;
